@@ -105,5 +105,6 @@ struct Driver {
 void register_driver(const Driver &d);
 const Driver *find_driver(const std::string &id);
 struct Reg { explicit Reg(const Driver &d) { register_driver(d); } };
+void advance_clock(long secs);   // virtual clock seen by the library (core/clock.cpp)
 
 }  // namespace vm
